@@ -24,11 +24,16 @@ import (
 
 	"github.com/sarchlab/akita/v4/mem/vm"
 	"github.com/sarchlab/akita/v4/sim"
+	"github.com/sarchlab/akita/v4/simulation"
+	"github.com/sarchlab/akita/v4/tracing"
+	"github.com/sarchlab/mgpusim/v4/amd/arch"
 	"github.com/sarchlab/mgpusim/v4/amd/driver"
 	"github.com/sarchlab/mgpusim/v4/amd/emu"
 	"github.com/sarchlab/mgpusim/v4/amd/insts"
 	"github.com/sarchlab/mgpusim/v4/amd/kernels"
 	"github.com/sarchlab/mgpusim/v4/amd/protocol"
+	"github.com/sarchlab/mgpusim/v4/amd/samples/runner/emusystem"
+	"github.com/sarchlab/mgpusim/v4/amd/samples/runner/timingconfig"
 	"github.com/sarchlab/mgpusim/v4/amd/timing/cu"
 	"github.com/sarchlab/mgpusim/v4/amd/timing/wavefront"
 
@@ -57,6 +62,8 @@ type Case struct {
 	En    int      `json:"en"`    // EnableVgprWorkItemID 0..2
 	Flags int      `json:"flags"` // bit0 psb, bit1 dptr, bit2 kptr, bit3..5 count x/y/z, bit6..8 wg id x/y/z
 	Wid   int      `json:"wid"`   // caller's label, copied to Reset
+	Plat  string   `json:"plat"`  // mode "e2e": "emu" | "r9nano" | "mi300a" (whole platform from the public builders)
+	GPUs  int      `json:"gpus"`  // mode "e2e": number of GPUs (unified device when > 1)
 }
 
 type stats struct {
@@ -478,6 +485,139 @@ func (r *runner) group(c *Case, l launch) {
 	}
 }
 
+
+// ------------------------------------------------------------ whole platform
+
+type kernArgs struct{ Pad uint64 }
+
+func isEndpgm(in *insts.Inst) bool { return in != nil && in.FormatType == insts.SOPP && in.Opcode == 1 }
+
+func (r *runner) wfRun(plat string, raw *kernels.Wavefront, exec uint64, v [3][]int, s []int) {
+	wg := raw.WG
+	r.st.RegWfs++
+	r.emit("WfRun", ab.Rec{"plat": plat, "id": []int{wg.IDX, wg.IDY, wg.IDZ},
+		"cs": []int{wg.CurrSizeX, wg.CurrSizeY, wg.CurrSizeZ}, "first": raw.FirstWiFlatID,
+		"mask": ab.Limbs64(raw.InitExecMask), "exec": ab.Limbs64(exec), "v0": v[0], "v1": v[1], "v2": v[2], "sregs": s})
+}
+
+func le32(b []byte) uint32 { return uint32(b[0]) | uint32(b[1])<<8 | uint32(b[2])<<16 | uint32(b[3])<<24 }
+
+// timingTap observes the "inst" tasks a timing CU reports when it issues an instruction.
+type timingTap struct {
+	r    *runner
+	u    *cu.ComputeUnit
+	seen map[*wavefront.Wavefront]bool
+}
+
+func (t *timingTap) StartTask(task tracing.Task) {
+	if task.Kind != "inst" {
+		return
+	}
+	d, ok := task.Detail.(map[string]interface{})
+	if !ok {
+		return
+	}
+	in, _ := d["inst"].(*wavefront.Inst)
+	wf, _ := d["wf"].(*wavefront.Wavefront)
+	if in == nil || wf == nil || !isEndpgm(in.Inst) || t.seen[wf] {
+		return
+	}
+	t.seen[wf] = true
+	v := [3][]int{make([]int, 64), make([]int, 64), make([]int, 64)}
+	buf := make([]byte, 4)
+	for lane := 0; lane < 64; lane++ {
+		for reg := 0; reg < 3; reg++ {
+			t.u.VRegFile[wf.SIMDID].Read(cu.RegisterAccess{Reg: insts.VReg(reg), RegCount: 1, LaneID: lane,
+				WaveOffset: wf.VRegOffset, Data: buf})
+			v[reg][lane] = small(le32(buf))
+		}
+	}
+	s := make([]int, nSregsLogged)
+	for k := range s {
+		t.u.SRegFile.Read(cu.RegisterAccess{Reg: insts.SReg(k), RegCount: 1, WaveOffset: wf.SRegOffset, Data: buf})
+		s[k] = small(le32(buf))
+	}
+	t.r.wfRun("timing", wf.Wavefront, wf.EXEC(), v, s)
+}
+func (t *timingTap) StepTask(task tracing.Task)       {}
+func (t *timingTap) AddMilestone(m tracing.Milestone) {}
+func (t *timingTap) EndTask(task tracing.Task)        {}
+
+// e2e launches a kernel consisting of s_endpgm through the real driver, command processor(s),
+// dispatcher(s) and compute units of a platform built by the public builders and logs, for every
+// wavefront that executes, the registers it holds when its (first) instruction runs.
+func (r *runner) e2e(c *Case) {
+	co := codeObject(c)
+	co.WIVgprCount = 1
+	co.WFSgprCount = 2
+	co.KernargSegmentByteSize = 8
+	n := c.GPUs
+	if n < 1 {
+		n = 1
+	}
+	archType := arch.GCN3
+	if c.Ver == 5 {
+		archType = arch.CDNA3
+	}
+	s := simulation.MakeBuilder().WithoutMonitoring().Build()
+	defer s.Terminate()
+	if c.Plat == "emu" {
+		emusystem.MakeBuilder().WithSimulation(s).WithNumGPUs(n).WithArchitecture(archType).Build()
+	} else {
+		timingconfig.MakeBuilder().WithSimulation(s).WithNumGPUs(n).WithGPUType(c.Plat).Build()
+	}
+	d := s.GetComponentByName("Driver").(*driver.Driver)
+	ncu := 0
+	for _, comp := range s.Components() {
+		switch u := comp.(type) {
+		case *emu.ComputeUnit:
+			ncu++
+			u.AcceptHook(ab.HookFn(func(ctx sim.HookCtx) {
+				wf, ok := ctx.Item.(*emu.Wavefront)
+				in, ok2 := ctx.Detail.(*insts.Inst)
+				if !ok || !ok2 || !isEndpgm(in) {
+					return
+				}
+				v := [3][]int{make([]int, 64), make([]int, 64), make([]int, 64)}
+				for lane := 0; lane < 64; lane++ {
+					for reg := 0; reg < 3; reg++ {
+						off := lane*256*4 + reg*4
+						v[reg][lane] = small(le32(wf.VRegFile[off : off+4]))
+					}
+				}
+				sr := make([]int, nSregsLogged)
+				for i := range sr {
+					sr[i] = small(le32(wf.SRegFile[i*4 : i*4+4]))
+				}
+				r.wfRun("emu", wf.Wavefront, wf.EXEC(), v, sr)
+			}))
+		case *cu.ComputeUnit:
+			ncu++
+			tracing.CollectTrace(u, &timingTap{r: r, u: u, seen: map[*wavefront.Wavefront]bool{}})
+		}
+	}
+	r.emit("E2EBegin", ab.Rec{"plat": c.Plat, "gpus": n, "cus": ncu, "ver": c.Ver, "en": c.En, "flags": flagRec(c),
+		"g": t3u32(c.G), "s": t3u16(c.S)})
+	ctx := d.Init()
+	if n > 1 {
+		ids := make([]int, n)
+		for i := range ids {
+			ids[i] = i + 1
+		}
+		d.SelectGPU(ctx, d.CreateUnifiedGPU(ctx, ids))
+	} else {
+		d.SelectGPU(ctx, 1)
+	}
+	q := d.CreateCommandQueue(ctx)
+	d.EnqueueLaunchKernel(q, co, [3]uint32{c.G[0], c.G[1], c.G[2]}, [3]uint16{c.S[0], c.S[1], c.S[2]}, &kernArgs{})
+	// the harness owns the engine: no runAsync goroutine, the run ends when no event is left
+	d.TickLater()
+	if err := s.GetEngine().Run(); err != nil {
+		panic(err)
+	}
+	r.emit("E2EEnd", ab.Rec{"pending": q.NumCommand()})
+}
+
 func (r *runner) runCase(i int, c *Case) {
 	r.st.Cases++
 	r.emit("Reset", ab.Rec{"case": i, "c": c})
@@ -489,6 +629,10 @@ func (r *runner) runCase(i int, c *Case) {
 	}()
 	if c.Ver == 0 {
 		c.Ver = 3
+	}
+	if c.Mode == "e2e" {
+		r.e2e(c)
+		return
 	}
 	co := codeObject(c)
 	for _, l := range r.launches(c, co) {
